@@ -1,8 +1,10 @@
 import CSSVerif.SpecEval
 import CSSVerif.CheckSpec
 import CSSVerif.Shifts
+import CSSVerif.SpecSem
 /-! Driver for specification skeletons (C01, C02, C19, C13, C17...).
-Line: `nClasses N cap root empties(-|a,b) skeleton`; prints `check=<0/1> <ok|incomplete> c:terms|terms|... ...`:
+Line: `nClasses N cap root empties(-|a,b) skeleton`; prints `check=<0/1> msh=<model shifts> wf=<0/1> <ok|incomplete> c:terms|terms|... ...`:
+`wf` = the proven-sound `skelWFB` (hypothesis `SkelWF` of `spec_counts_correct` / `evalSpec_correct`);
 `check` = verdict of the proven `checkSpec` on (parent, children, shifts); then the evaluation of the skeleton. -/
 def strs' (s : String) : List String := if s = "" then [] else s.splitOn ","
 def parseTerms' (s : String) : Terms :=
@@ -41,7 +43,7 @@ partial def loop (h : IO.FS.Stream) : IO Unit := do
       let ok := (List.range nc).all (fun c => tab.len c > nmax || !(rules.any (·.cls == c)))
       let out := (List.range nc).map (fun c => s!"{c}:" ++ "|".intercalate (((tab.getD c #[]).toList.take (nmax+1)).map showT))
       let msh := ";".intercalate ((rules.filter (fun r => r.kind != .ver)).map (fun r => s!"{r.cls}:{",".intercalate ((modelShifts r).map toString)}"))
-      IO.println (s!"check={if chk then 1 else 0} msh={msh} " ++ (if ok then "ok " else "incomplete ") ++ " ".intercalate out)
+      IO.println (s!"check={if chk then 1 else 0} msh={msh} wf={if skelWFB rules then 1 else 0} " ++ (if ok then "ok " else "incomplete ") ++ " ".intercalate out)
     | _ => IO.println "bad-op"
     loop h
 def main : IO Unit := do loop (← IO.getStdin)
